@@ -4030,6 +4030,9 @@ FREE_OF_ROOT_NODE
 ADF_DISK_TAG_ERROR
 FREE_OF_FREE_CHUNK_TABLE
 ***********************************************************************/
+#ifdef CGNS_VERIF
+#define ADFI_file_free ADFI_file_free_body
+#endif
 void	ADFI_file_free(
         const int file_index,
         const struct DISK_POINTER *block_offset,
@@ -4220,6 +4223,10 @@ else {	/** Use the number of bytes passed in **/
       return ;
    } /* end else */
 
+#ifdef CGNS_VERIF
+VERIF_TRACE( ADFI_VT_FREE | (in_number_of_bytes == 0 ? 1 : 0) << 8, file_index, block_offset->block,
+   block_offset->offset, number_of_bytes, (const char *)&end_of_chunk_tag, NO_ERROR ) ;
+#endif
 if( number_of_bytes <= SMALLEST_CHUNK_SIZE ) { /** Too small, z-gas **/
 	/** Initialize the block of 'Z's **/
    if( block_of_ZZ_initialized == FALSE ) {
@@ -4312,6 +4319,16 @@ else {	/** Add this chunk to the free table **/
 	   (unsigned int)block_offset->offset, DEL_STK_ENTRY, 0, 0, NULL ) ;
 
 } /* end of ADFI_file_free */
+#ifdef CGNS_VERIF
+#undef ADFI_file_free
+void	ADFI_file_free( const int file_index, const struct DISK_POINTER *block_offset,
+        const cglong_t in_number_of_bytes, int *error_return )
+{
+ADFI_file_free_body( file_index, block_offset, in_number_of_bytes, error_return ) ;
+if( block_offset != NULL ) VERIF_TRACE( ADFI_VT_FREE | 2 << 8, file_index, block_offset->block,
+   block_offset->offset, in_number_of_bytes, NULL, *error_return ) ;
+}
+#endif
 /* end of file ADFI_file_free.c */
 /* file ADFI_file_malloc.c */
 /***********************************************************************
@@ -4328,6 +4345,9 @@ NO_ERROR
 NULL_POINTER
 ADF_FILE_NOT_OPENED
 ***********************************************************************/
+#ifdef CGNS_VERIF
+#define ADFI_file_malloc ADFI_file_malloc_body
+#endif
 void	ADFI_file_malloc(
 		const int file_index,
 		const cglong_t size_bytes,
@@ -4524,6 +4544,17 @@ if( memory_found != TRUE ) { /* Append memory at end of file **/
    } /* end if */
 
 } /* end of ADFI_file_malloc */
+#ifdef CGNS_VERIF
+#undef ADFI_file_malloc
+void	ADFI_file_malloc( const int file_index, const cglong_t size_bytes,
+		struct DISK_POINTER *block_offset, int *error_return )
+{
+VERIF_TRACE( ADFI_VT_MALLOC, file_index, 0, 0, size_bytes, NULL, NO_ERROR ) ;
+ADFI_file_malloc_body( file_index, size_bytes, block_offset, error_return ) ;
+if( block_offset != NULL ) VERIF_TRACE( ADFI_VT_MALLOC | 1 << 8, file_index, block_offset->block,
+   block_offset->offset, size_bytes, NULL, *error_return ) ;
+}
+#endif
 /* end of file ADFI_file_malloc.c */
 /* file ADFI_fill_initial_file_header.c */
 /***********************************************************************
